@@ -530,9 +530,10 @@ retransmission) x deferred/immediate NAK; exhaustive over this grid, repeated un
         }
     }
     // link timing variants: serialisation delay tau and latency (the grid above uses tau 1 ms, latency 2 ms)
-    let variants: Vec<(u64, u64)> = ctx.tier.pick(vec![(0, 0), (5, 3)], vec![(0, 0), (0, 4), (2, 0), (5, 3), (10, 5)]);
+    // (the third figure is hook H5's poll delay: timer and PDU of one instant found ready together)
+    let variants: Vec<(u64, u64, u8)> = ctx.tier.pick(vec![(0, 0, 0), (5, 3, 0), (1, 2, 3)], vec![(0, 0, 0), (0, 4, 0), (2, 0, 0), (5, 3, 0), (10, 5, 0), (1, 2, 3), (0, 0, 4), (1, 0, 2)]);
     let base = cases.clone();
-    for (vi, (tau, lat)) in variants.iter().enumerate() {
+    for (vi, (tau, lat, yields)) in variants.iter().enumerate() {
         for (ci, c) in base.iter().enumerate() {
             // quick: every other case per variant
             if ctx.tier == Tier::Quick && (ci + vi) % 2 == 1 {
@@ -541,6 +542,7 @@ retransmission) x deferred/immediate NAK; exhaustive over this grid, repeated un
             let mut c2 = c.clone();
             c2.sc.tau_ms = *tau;
             c2.sc.lat_ms = *lat;
+            c2.sc.yields = *yields;
             cases.push(c2);
         }
     }
